@@ -173,6 +173,9 @@ def run(ctx):
     FH = ctx.body('Peers::find_header_in_proved_state')
     pcalls = sorted({k for b in [FH] + P.closures_of(FH) for _, k, _ in P.call_keys(b) if k.startswith(('PeerState::', 'LastState::', 'ProveRequest::'))})
     ctx.ob('C01.r5', FH.name, 'peer headers served to get_header / verification come only from the prove state', pcalls == ['PeerState::get_prove_state'], peer_state_reads=pcalls)
+    # reviewed reference of the checker functions' decision structure (engine/census.py)
+    from rules import census_fns
+    census_fns.run(ctx, 'C01')
 
 
 def meta_key_writers(P, consts):
